@@ -13,6 +13,8 @@ ASSUME = [
     "the ADD_ONION line is tokenised by the harness's own parser (space separated, Port=pub,target / Flags=a,b / ClientAuth=name[:blob])",
     "SimTor always returns a PrivateKey= line (also when DiscardPK was sent) so that 'never stored' is observable",
     "int-form port mappings use the local port a fake reactor hands out; a prefixed key of the wrong type for the version may be refused",
+    "every authenticated request is also made with an AuthBasic object that was used before for another service (whose reply carried "
+    "Tor-generated cookies): the ADD_ONION under test must be the same",
 ]
 KEYS = [dict(kind="none", type="", body=""), dict(kind="discard", type="", body=""),
         dict(kind="bare", type="", body="QmFyZUJsb2I="),
@@ -37,7 +39,11 @@ def requests(tier, seed):
             for ports in psets:
                 out.append(dict(version=version, key=dict(key), detach=detach, single=single,
                                 auth=auth_clients is not None, clients=[dict(c) for c in (auth_clients or [])],
-                                ports=[dict(p) for p in ports]))
+                                ports=[dict(p) for p in ports], reuse=False))
+                if auth_clients:
+                    # the same request, made with an auth object that has already served another service
+                    out.append(dict(out[-1], key=dict(key), clients=[dict(c) for c in auth_clients],
+                                    ports=[dict(p) for p in ports], reuse=True))
     return out
 
 
